@@ -18,7 +18,7 @@ RULE = (
     "the catalogue of serialized public attributes present on the loaded object (project fields, common module fields, every controller, "
     "option and MIDI binding, type-specific payload elements: curve/waveform/harmonic/mapping elements, Vorbis data, sampler fields, note map, "
     "envelope fields and points, samples added/edited/removed, effect replaced or edited, MetaModule count/labels/mappings and edits inside "
-    "the embedded project, pattern fields and note cells); value from the attribute's domain. 1-2 successive edits per case, with the loaded object optionally saved or cloned (result discarded) before each edit; dedicated shards for Samplers (with embedded effect), MetaModules and nested MetaModules (edits inside embedded projects at depth 1-2). Oracle "
+    "the embedded project, pattern fields and note cells); value from the attribute's domain. 1-2 successive edits per case, with the loaded object optionally saved or cloned (result discarded) before each edit; payload edits either mutate the sub-object in place or assign a whole new object (envelope, list of envelopes, curve value list); dedicated shards for songs holding 2-3 byte-identical containers (edit inside one of them), Samplers (with embedded effect), MetaModules and nested MetaModules (edits inside embedded projects at depth 1-2). Oracle "
     "(metamorphic): snapshot after the edit differs from the one before only at the edited path + declared couplings and shows the new value; "
     "snapshot(load(save(edited))) == snapshot(edited). every fixture is additionally swept deterministically over every attribute of the common catalogue (project fields, common module fields, every controller at both range ends / two members, every option, one binding per controller; quick: every 6th attribute) and with 12 (quick) / 60 (thorough) generated edits. distinct = case hash; "
     "non-trivial = the edit changed the value"
